@@ -1,1 +1,63 @@
-From CG Require Import Spec.Sets.
+(* Props/C04.v — C04: reverse iteration returns exactly the forward result, newest first.
+   Statements only (Proofs/Reverse.v, Proofs/Negate.v). *)
+From CG Require Import Proofs.Defs Proofs.Compl Proofs.Merge Proofs.Negate Proofs.Reverse.
+
+(* writing the two bounds in either order gives the same slice, for every expression *)
+Theorem C04_bounds_swap : forall env e x y rv,
+  slice env e (Some x) (Some y) rv = slice env e (Some y) (Some x) rv.
+Proof. exact bounds_swap. Qed.
+Print Assumptions C04_bounds_swap.
+
+Theorem C04_stored_reverse : forall env evs a b,
+  fetch env (Stored evs) a b true = rev (fetch env (Stored evs) a b false).
+Proof. exact stored_reverse. Qed.
+Print Assumptions C04_stored_reverse.
+
+(* time negation is an involution and mirrors covered instants (t |-> -t-1) *)
+Theorem C04_negate_involutive : forall l, neg_stream (neg_stream l) = l.
+Proof. exact neg_stream_involutive. Qed.
+Print Assumptions C04_negate_involutive.
+
+(* THE boundary of the time-negation trick: the negated stream is sorted by start iff the
+   ends of the stream are monotone — nested events break every negated sweep (KF-D3) *)
+Theorem C04_negate_sorted_iff_monotone_ends : forall l,
+  sorted_start (neg_stream l) <-> mono_ends_desc l.
+Proof. exact negate_sorted_iff_monotone_ends_gen. Qed.
+Print Assumptions C04_negate_sorted_iff_monotone_ends.
+
+(* union: same multiset, newest first *)
+Theorem C04_union_reverse : forall fs,
+  Forall (sorted_le key_le) fs ->
+  Permutation (merge_by lt_rev (map (@rev ivl) fs)) (merge_by lt_fwd fs) /\
+  sorted_le key_ge (merge_by lt_rev (map (@rev ivl) fs)).
+Proof. exact union_reverse_perm. Qed.
+Print Assumptions C04_union_reverse.
+
+(* complement: the negated sweep returns exactly the reversed forward gaps when the source's
+   ends are monotone (in particular for non-overlapping sources) *)
+Theorem C04_complement_reverse_partial : forall xs a b,
+  wf_win a b -> Forall wf_ivl xs -> sorted_start xs -> sorted_start (neg_stream (rev xs)) ->
+  neg_stream (compl_sweep (neg_stream (rev xs)) (negO b) (negO a)) = rev (compl_sweep xs a b).
+Proof. exact compl_reverse_mono. Qed.
+Print Assumptions C04_complement_reverse_partial.
+
+(* difference: list equality with the reversed forward result; subtractors need monotone ends *)
+Theorem C04_difference_reverse_partial : forall src subs,
+  Forall wf_ivl src -> Forall canon_ivl src -> disjoint_sorted src ->
+  Forall wf_ivl subs -> sorted_start subs -> sorted_start (neg_stream (rev subs)) ->
+  neg_stream (dsweep (neg_stream (rev src)) (neg_stream (rev subs))) = rev (dsweep src subs).
+Proof. exact dsweep_reverse_mono. Qed.
+Print Assumptions C04_difference_reverse_partial.
+
+(* hence: first n of the reverse slice = last n of the forward slice *)
+Theorem C04_last_n : forall (r f : list ivl) n, r = rev f -> firstn n r = rev (skipn (length f - n) f).
+Proof. exact last_n. Qed.
+Print Assumptions C04_last_n.
+
+(* KF-D3 witness: ~[(0,10),(2,4)] over (0,20): forward [(10,20)], reverse [(4,20)] *)
+Theorem C04_nested_refuted :
+  let e := Compl (Stored [mkI (Some 0) (Some 10) (Rich 1); mkI (Some 2) (Some 4) (Rich 2)]) in
+  slice [] e (Some 0) (Some 20) false = [mkI (Some 10) (Some 20) Plain] /\
+  slice [] e (Some 0) (Some 20) true = [mkI (Some 4) (Some 20) Plain].
+Proof. exact Reverse.C04_nested_refuted. Qed.
+Print Assumptions C04_nested_refuted.
